@@ -919,12 +919,8 @@ func (self *LockResultCommandData) GetArrayValue() [][]byte {
 	}
 	values := make([][]byte, 0)
 	index := self.GetValueOffset()
-	for index+4 < len(self.Data) {
+	for index+4 <= len(self.Data) {
 		valueLen := int(uint32(self.Data[index]) | uint32(self.Data[index+1])<<8 | uint32(self.Data[index+2])<<16 | uint32(self.Data[index+3])<<24)
-		if valueLen == 0 {
-			index += 4
-			continue
-		}
 		if valueLen < 0 || index+4+valueLen > len(self.Data) {
 			break
 		}
